@@ -26,7 +26,7 @@ COMPONENTS = {'real': ['yldprolog.engine Variable/Functor get_value and to_pytho
               'stub': ['consumer holding the open unifications and saved values'],
               'oracle': ['substitution-stack model (ypsim.terms) rendered through the documented to_python mapping']}
 REQUIRED_PROBES = ('term_built_and_kept', 'fault_recursion_inside_get_value', 'fault_recursion_inside_to_python', 'save_ground_compound', 'save_outer_older_than_inner', 'read_after_pop', 'program_collect_idiom', 'program_findall', 'program_assert',
-                   'pop_close', 'pop_drop', 'pop_resume', 'pop_throw', 'clear_under_open_unifications', 'finished_generator_closed_or_dropped_later', 'saved_value_used_as_goal', 'chain_of_variable_linked_cells', 'stored_through_assert_fact', 'side_advanced_or_ended_while_younger_generators_suspended', 'program_bounded_projection_fault')
+                   'pop_close', 'pop_drop', 'pop_resume', 'pop_throw', 'clear_under_open_unifications', 'finished_generator_closed_or_dropped_later', 'saved_value_used_as_goal', 'chain_of_variable_linked_cells', 'stored_through_assert_fact', 'side_advanced_or_ended_while_younger_generators_suspended', 'program_bounded_projection_fault', 'program_nested_bounded_native')
 
 
 def ground_term(rng, depth):
@@ -156,7 +156,7 @@ def gen(seed, tier):
         body = ', '.join('%s = %s' % (progs.render(a, names), progs.render(b, names)) for a, b in eqs)
         head = progs.render(('v', 0), names)
         # a second clause so that the enumeration advances past the first answer
-        program = {'source': 'p(%s) :- %s.\np(second).\nt(L) :- findall(X, p(X), L).\nst :- p(X), assertz(s(X)), never_defined(X).\nst.\n' % (head, body),
+        program = {'source': 'p(%s) :- %s.\np(second).\npn(X,N) :- p(X), nbp(N).\nt(L) :- findall(X, p(X), L).\nst :- p(X), assertz(s(X)), never_defined(X).\nst.\n' % (head, body),
                    'target': TM.J(target), 'equations': len(eqs)}
     return {'nv': nv, 'ops': ops, 'program': program, 'prefill': prefill}
 
@@ -657,6 +657,33 @@ def run_program(prog, log):
         if got not in allowed:
             log.violation('collected-answer-changed', {'program': prog['source'], 'idiom': 'evaluate_bounded', 'fault_at_answer': k, 'returned': got, 'answers': [pyj(w) for w in want]})
             return
+    # 1c. the query is driven by evaluate_bounded and one of its goals is a registered Python predicate that runs a
+    # bounded query of its own on the same engine (re-entrant use): the outer answers are still the outer answers
+    log.count('cases'); log.count('program_nested_bounded_native')
+    from yldprolog.engine import unify as _unify
+
+    def nbp(arg):
+        y_ = yp.variable()
+        inner = yp.evaluate_bounded(yp.query('p', [y_]), lambda _: to_python(y_), recursion_limit=sys.getrecursionlimit())
+        for _ in _unify(arg, len(inner)):
+            yield False
+    yp.register_function('nbp', nbp)
+    x = yp.variable()
+    n_ = yp.variable()
+    try:
+        res = yp.evaluate_bounded(yp.query('pn', [x, n_]), lambda _: (x.get_value(), to_python(n_)), recursion_limit=sys.getrecursionlimit())
+    except Exception as e:
+        log.violation('program-answer-misses-binding', {'program': prog['source'], 'idiom': 'evaluate_bounded over pn(X,N) :- p(X), nbp(N).', 'exception': type(e).__name__})
+        return
+    log.ev('nested-native', len(res))
+    for val, cnt in res:
+        if raw_has_variable(val):
+            log.violation('collected-answer-contains-variable', {'program': prog['source'], 'idiom': 'evaluate_bounded over pn(X,N) :- p(X), nbp(N). where nbp/1 runs evaluate_bounded itself'})
+            return
+    if [[pyj(to_python(v)), c] for v, c in res] != [[pyj(w), len(want)] for w in want]:
+        log.violation('collected-answer-changed', {'program': prog['source'], 'idiom': 'evaluate_bounded over pn(X,N) :- p(X), nbp(N). where nbp/1 runs evaluate_bounded itself',
+                                                   'returned': [[pyj(to_python(v)), c] for v, c in res], 'expected': [[pyj(w), len(want)] for w in want]})
+        return
     # 2. findall
     log.count('cases'); log.count('program_findall')
     lst = yp.variable()
